@@ -12,7 +12,7 @@ RULE = ("histories over 1-4 resources with 0-3 isolation rules each (thresholds 
         "random order incl. Exit(WithError), TraceError before/after exit, double exits, two goroutines exiting one entry at once (dexit), "
         "exits of blocked/unknown ids, gauge reads, rule reloads mid-history with live entries (append a stricter/looser rule, remove, "
         "reorder, change, same, fresh), half of all loads through one reused caller-owned slice that is overwritten after the call "
-        "(sload/sloadres), rule lists of 9-40 rules on one resource with the binding rule late in the list (12 % of the loads), exit handlers returning nil / an error before exits, in-place edits of loaded rule objects (poke), GetRulesOfResource/GetRules reads, LoadRulesOfResource / ClearRulesOfResource on resources with and without rules (repeated, followed by "
+        "(sload/sloadres), resource names with '|', '_', '%', '~' (a space) and unicode incl. pairs like a|b / a_b (half of the cases), Rule.ID modes (shared non-empty id, empty, mixed; 40 % of the cases), rule lists of 9-40 rules on one resource with the binding rule late in the list (12 % of the loads), exit handlers returning nil / an error before exits, in-place edits of loaded rule objects (poke), GetRulesOfResource/GetRules reads, LoadRulesOfResource / ClearRulesOfResource on resources with and without rules (repeated, followed by "
         "traffic on the others), virtual clock steps (mostly backwards), and schedule ops (par/sched: 1-6 goroutines parked at chain.between-check-and-stat, random interleavings of "
         "check/record/exit steps); non-trivial = at least one pass, one isolation block and one exit that is not of the newest live entry; "
         "distinct by (rules, op-kind/boundary-class sequence); plus every short schedule over 2-4 threads, and soak cases (2-16 real "
@@ -20,7 +20,9 @@ RULE = ("histories over 1-4 resources with 0-3 isolation rules each (thresholds 
         "free-capacity / totals")
 
 U32 = 2 ** 32
-RES = ["a", "b", "c", "d"]
+RES = ["a", "b", "c", "d"]       # the four resource names of the current case (re-drawn per case from NAMES)
+NAMES = ["a", "b", "c", "d", "a|b", "a_b", "a~b", "a%b", "|", "_", "x|y|z", "x_y_z", "x_y|z", "p%q", "ü1", "日本", "A", "a|", "a_"]
+NAME_SETS = [["a|b", "a_b", "a~b", "a%b"], ["x|y|z", "x_y_z", "x_y|z", "|"], ["a|", "a_", "a", "_"], ["ü1", "日本", "p%q", "A"]]
 TYPES = ["common", "web", "rpc", "rpc", "gateway", "dbsql", "cache", "mq"]
 THR_SMALL = [1, 1, 2, 2, 3, 3, 5]
 THR_EDGE = [0, 2 ** 31 - 1, 2 ** 31, U32 - 2, U32 - 1]
@@ -154,9 +156,17 @@ def pick_batch(rng, sim, res, cls):
 
 
 def gen_case(rng, cid):
+    # resource names: plain letters half of the time, else names with '|', '_', '%', '~' (= a space), unicode — among them pairs like
+    # a|b / a_b that must stay distinct resources
+    x = rng.random()
+    RES[:] = ["a", "b", "c", "d"] if x < 0.5 else (list(rng.choice(NAME_SETS)) if x < 0.8 else rng.sample(NAMES, 4))
     sim = Sim()
     sim.rng = rng
     ops, cls = [], []
+    if rng.random() < 0.4:
+        # how Rule.ID is filled from now on: shared non-empty id, empty ids, a mix (rules are identified by object, never by id)
+        ops.append(f"idmode {rng.choice(['same', 'same', 'empty', 'mixed'])}")
+        cls.append("idmode")
     gen_rules(rng, sim, ops)
     pool = sorted(set(list(sim.rules) + [rng.choice(RES)]))
     nops = rng.randint(12, 90)
@@ -276,7 +286,10 @@ def gen_case(rng, cid):
             sim.toks = [(a, t if (a == r and i == idx and v != 0) else v) for (a, v), i in zip(sim.toks, sim.idx)]
             rebuild(sim)
         elif x < 0.84:
-            ops.append(rng.choice([f"rules {res}", f"rules {rng.choice(RES)}", "rules"]))
+            if rng.random() < 0.25:
+                ops.append(f"idmode {rng.choice(['pos', 'same', 'empty', 'mixed'])}")
+            else:
+                ops.append(rng.choice([f"rules {res}", f"rules {rng.choice(RES)}", "rules"]))
         elif x < 0.90:
             k = rng.choice([1, 2, 2, 3, 3, 4, 6])
             b = pick_batch(rng, sim, res, cls)
@@ -385,7 +398,7 @@ def nontrivial(case, impl):
             npass += sum(1 for b in body if b in ("p", "x"))
             nblock += sum(1 for b in body if b.startswith("b"))
             kinds.append("S" + "".join(b[0] for b in body))
-        elif t[0] in ("load", "sload", "loadres", "sloadres", "clearres", "clock", "poke"):
+        elif t[0] in ("load", "sload", "loadres", "sloadres", "clearres", "clock", "poke", "idmode"):
             kinds.append(t[0][0] + t[0][-1])
     if npass and nblock and ooo:
         return hash((tuple(o for o in case.ops if o.startswith("load") or o.startswith("sload")), "".join(kinds), case.tags))
